@@ -18,7 +18,8 @@ SH2 = list(itertools.product(range(-2, 3), repeat=3))
 def bonded(a1, a2, d):
     p1, p2 = a1.part.n, a2.part.n
     allowed = (p1 == p2) or ((p1 == 0 or p2 == 0) and not (a1.ishydrogen or a2.ishydrogen))
-    return allowed and d < 1.2 * (a1.radius + a2.radius)
+    # covalent radii by element symbol from the library's table, not through the atom object
+    return allowed and d < 1.2 * (gs.radius(a1.element) + gs.radius(a2.element))
 
 
 def oracle(ctx, st, ob, with_q):
@@ -190,8 +191,9 @@ def targeted_search(ctx):
                 break
         M = gs.ortho(cell)
         Mi = gs.inv3(M)
-        lim = 1.2 * 2 * gs.radius('C')
-        r = rng.uniform(0.8, 0.995) * lim
+        el = rng.choice(['C', 'N', 'O', 'O'])
+        lim = 1.2 * 2 * gs.radius(el)
+        r = rng.uniform(0.9, 0.999) * lim
         v = [rng.gauss(0, 0.3), rng.gauss(0, 1), rng.gauss(0, 1)]
         ln = math.sqrt(sum(x * x for x in v))
         half = gs.mv(Mi, [x / ln * r / 2 for x in v])
@@ -199,7 +201,7 @@ def targeted_search(ctx):
         w = [rng.gauss(0, 1) for _ in range(3)]
         lw = math.sqrt(sum(x * x for x in w))
         o = gs.mv(Mi, [x / lw * 1.35 for x in w])
-        atoms = [{'el': 'C', 'xyz': [round(x, 5) for x in c1], 'part': 0, 'name': 'C1'},
+        atoms = [{'el': el, 'xyz': [round(x, 5) for x in c1], 'part': 0, 'name': el + '1'},
                  {'el': 'O', 'xyz': [round(c1[i] + o[i], 5) for i in range(3)], 'part': 0, 'name': 'O2'}]
         st = {'name': 'P-1', 'latt': 1, 'symm': [], 'cell': cell, 'atoms': atoms, 'qpeaks': []}
         try:
@@ -223,6 +225,8 @@ def run(ctx):
     for k in range(nstruct):
         # one structure in six is triclinic (P-1 / P1): the only system in which every term of the metric matters
         st = gs.gen_structure(rng, name=rng.choice(['P-1', 'P-1', 'P1']) if k % 6 == 5 else None)
+        if k % 10 == 3:
+            st = gs.gen_chain(rng)      # a chain bonded to its own lattice translates
         with_q = rng.random() < 0.2
         try:
             ob = sc.observe(st, with_q)
